@@ -252,6 +252,9 @@ class _Blocked(object):
             if tid == _MAIN_THREAD:
                 f = frame
             if f is not None and os.path.abspath(f.f_code.co_filename).startswith(prefix):
+                if tid != _MAIN_THREAD and f.f_code.co_name == "_reader" and f.f_code.co_filename.endswith("logwriter.py"):
+                    # the writer thread of a ThreadedWriter waiting for the next message is idle, not blocked
+                    continue
                 blocked.append((tid, id(f), f.f_lasti, f))
         blocked.sort(key=lambda b: b[:3])
         self.samples.append((tuple(b[:3] for b in blocked), time.process_time()))
